@@ -236,10 +236,14 @@ func createPromise(tags map[string]string, promiseCmd *t_aio.CreatePromiseComman
 		})
 
 		if err != nil {
+			// The router could not be consulted, it is unknown whether the promise must be
+			// created together with a task. Creating the promise alone would silently drop
+			// the invocation, fail the request instead so that it can be retried.
 			slog.Warn("failed to match promise", "cmd", promiseCmd, "err", err)
+			return nil, t_api.NewError(t_api.StatusAIOMatchError, err)
 		}
 
-		if taskCmd != nil && (err != nil || !completion.Router.Matched) {
+		if taskCmd != nil && !completion.Router.Matched {
 			slog.Error("failed to match promise with router when creating a task", "cmd", promiseCmd)
 			return nil, t_api.NewError(t_api.StatusPromiseRecvNotFound, err)
 		}
